@@ -110,7 +110,10 @@ func runC14(c *Ctx) []Violation {
 			rd := simio.NewReader(t.w.Input, t.plan)
 			rd.Yield = st.Yield
 			schema := t.schema
-			if t.ownSchema {
+			// (not in the instrumented flavour: NewSchema ranges over Go maps and sorts what it finds, the
+			// number of statements it executes - hence every later hand-off point - would differ from
+			// process to process)
+			if t.ownSchema && !sched.Instrumented {
 				st.Yield()
 				own, es, ps := run.NewSchema("sim-schema", t.w.Schema, ext)
 				if own == nil {
